@@ -93,6 +93,10 @@ pub uninterp spec fn keep_res_spec(k: String, v: Result<u64, String>) -> bool;
 #[verifier::external_body] pub fn keep_res(key: &String, v: &Result<u64, String>, fx: &mut Fx) -> (r: bool)
     ensures r == keep_res_spec(*key, *v), final(fx).keep_calls@ == old(fx).keep_calls@.push(*key), final(fx).body_runs == old(fx).body_runs, final(fx).stale_calls == old(fx).stale_calls
 { unimplemented!() }
+pub uninterp spec fn stale_res_spec(k: String, v: Result<u64, String>) -> bool;
+#[verifier::external_body] pub fn stale_res(key: &String, v: &Result<u64, String>, fx: &mut Fx) -> (r: bool)
+    ensures r == stale_res_spec(*key, *v), final(fx).stale_calls@ == old(fx).stale_calls@.push(*key), final(fx).body_runs == old(fx).body_runs, final(fx).keep_calls == old(fx).keep_calls
+{ unimplemented!() }
 pub uninterp spec fn stale_spec(k: String, v: u64) -> bool;
 #[verifier::external_body] pub fn stale(key: &String, v: &u64, fx: &mut Fx) -> (r: bool)
     ensures r == stale_spec(*key, *v), final(fx).stale_calls@ == old(fx).stale_calls@.push(*key), final(fx).body_runs == old(fx).body_runs, final(fx).keep_calls == old(fx).keep_calls
@@ -256,16 +260,16 @@ def contract(name, attrs, info, fixture_src):
         STALE = '%s_spec(%s, %s)' % (inval, K, V0)
         SERVE = '(%s && !%s)' % (HIT, STALE)
         ens += [
-            ('valid_served_without_body', ['C11', 'C03', 'C01', 'C02'], '%s ==> ret == %s && %s == %s' % (SERVE, V0, RUNS1, RUNS0)),
+            ('valid_served_without_body', ['C11', 'C03', 'C01', 'C02', 'C06'], '%s ==> ret == %s && %s == %s' % (SERVE, V0, RUNS1, RUNS0)),
             ('stale_never_served_body_reruns', ['C11'], '(%s && %s) ==> %s == %s + 1 && ret == %s' % (HIT, STALE, RUNS1, RUNS0, BODY)),
             ('check_consulted_once_per_hit', ['C11'], 'final(fx).stale_calls@ == (if %s { old(fx).stale_calls@.push(%s) } else { old(fx).stale_calls@ })' % (HIT, K)),
         ]
     else:
         SERVE = HIT
-        ens += [('hit_served_without_body', ['C03', 'C01', 'C02'], '%s ==> ret == %s && %s == %s' % (HIT, V0, RUNS1, RUNS0)),
+        ens += [('hit_served_without_body', ['C03', 'C01', 'C02', 'C06'], '%s ==> ret == %s && %s == %s' % (HIT, V0, RUNS1, RUNS0)),
                 ('no_check_consulted', ['C11'], 'final(fx).stale_calls == old(fx).stale_calls')]
     MISS = '!%s' % SERVE
-    ens.append(('miss_runs_body_once', ['C03', 'C01'], '%s ==> %s == %s + 1 && ret == %s' % (MISS, RUNS1, RUNS0, BODY)))
+    ens.append(('miss_runs_body_once', ['C03', 'C01', 'C06'], '%s ==> %s == %s + 1 && ret == %s' % (MISS, RUNS1, RUNS0, BODY)))
     if cif:
         KEEP = '%s_spec(%s, ret)' % (cif, K)
         ens += [
@@ -279,6 +283,8 @@ def contract(name, attrs, info, fixture_src):
             ens.append(('accepted_err_not_stored', ['C10', 'C09'], '(!%s && ret is Err) ==> %s' % (HIT, NOT_STORED)))
     else:
         ens.append(('no_predicate_consulted', ['C10'], 'final(fx).keep_calls == old(fx).keep_calls'))
+        if res and inval:
+            ens.append(('failed_refresh_keeps_old_entry', ['C09', 'C11'], '(%s && %s && ret is Err) ==> %s.dom() == %s.dom() && %s == %s' % (HIT, STALE, M1, M0, V1, V0)))
         if res:
             ens += [('err_never_cached', ['C09'], '(!%s && ret is Err) ==> %s' % (HIT, NOT_STORED)),
                     ('ok_cached', ['C09', 'C01', 'C02'], '(%s && ret is Ok) ==> %s' % (MISS, STORED))]
@@ -436,7 +442,7 @@ def build(flavour, await_interference=False):
             log.append(dict(rule='R9.pattern_param', item='w_' + name, line=info['tail_line'], old=', '.join(attrs['patterns'].values()), new=rebind))
             body = rebind + body
         items.append(dict(kind='fn', name='w_' + name, label=('wrapper[await]::' if await_interference else 'wrapper::') + name, sig_text=sig, body_text='{\n' + body + '\n}', src_line=info['tail_line'],
-                          src_file='macro-expansion of fixtures/src/lib.rs', ret='ret', requires=req, ensures=ens, hints=[HINT], pre_log=log,
+                          src_file='macro-expansion of fixtures/src/lib.rs', ret='ret', requires=req, ensures=ens, hints=[HINT], pre_log=log, option_map=True,
                           props=['C20', 'C03'] if await_interference else ['C01', 'C02', 'C03', 'C09', 'C10', 'C11', 'C04', 'C05', 'C07', 'C08', 'C13', 'C15']))
         if flavour in ('global', 'async') and not await_interference:
             info['ret'] = attrs['ret']
